@@ -44,6 +44,11 @@ const (
 
 func isSession(b string) bool { return strings.HasPrefix(b, "session") }
 
+func (h *hcfg) cookieOpts() string {
+	return fmt.Sprintf("{sessiononly=%v secure=%v httponly=%v samesite=%q domain=%q path=%q}",
+		h.ckSessionOnly, h.ckSecure, h.ckHTTPOnly, h.ckSameSite, h.ckDomain, h.ckPath)
+}
+
 var ehNames = []string{"default", "custom-returns-error", "custom-writes-403-returns-nil", "custom-returns-nil"}
 
 // scheme modes
@@ -90,11 +95,15 @@ type hcfg struct {
 	// 2 custom that writes its own 403 response and returns nil, 3 custom that returns nil without
 	// writing anything. The verdict never depends on it: did the protected handler run.
 	errHandler int
+	// cookie options of the CSRF cookie: they shape the Set-Cookie line only; the server-side token
+	// lifetime (IdleTimeout) and every verdict are independent of them
+	ckSessionOnly, ckSecure, ckHTTPOnly bool
+	ckSameSite, ckDomain, ckPath        string
 }
 
 func (h *hcfg) String() string {
-	return fmt.Sprintf("backend=%s extractor=%s keylookup=%v decoy-keylookup=%q singleuse=%v idle=%s cookie=%s mode=%s host=%s trusted=%q reusectx=%v tokstyle=%d custom-methods=%v errorhandler=%s",
-		h.backend, h.extractor, h.keyLookup, h.decoy, h.singleUse, h.idle, h.cookieName, smNames[h.mode], h.host, h.trustedCfg, h.reuseCtx, h.tokStyle, h.customMethods, ehNames[h.errHandler])
+	return fmt.Sprintf("backend=%s extractor=%s keylookup=%v decoy-keylookup=%q singleuse=%v idle=%s cookie=%s mode=%s host=%s trusted=%q reusectx=%v tokstyle=%d custom-methods=%v errorhandler=%s cookie-opts=%s",
+		h.backend, h.extractor, h.keyLookup, h.decoy, h.singleUse, h.idle, h.cookieName, smNames[h.mode], h.host, h.trustedCfg, h.reuseCtx, h.tokStyle, h.customMethods, ehNames[h.errHandler], h.cookieOpts())
 }
 
 type entry struct {
@@ -184,10 +193,16 @@ func newWorld(cfg *hcfg, plan *faultPlan) *world {
 	}
 	w.app = fiber.New(fc)
 	cc := fcsrf.Config{
-		IdleTimeout:    cfg.idle,
-		SingleUseToken: cfg.singleUse,
-		CookieName:     cfg.cookieName,
-		TrustedOrigins: cfg.trustedCfg,
+		IdleTimeout:       cfg.idle,
+		SingleUseToken:    cfg.singleUse,
+		CookieName:        cfg.cookieName,
+		CookieSessionOnly: cfg.ckSessionOnly,
+		CookieSecure:      cfg.ckSecure,
+		CookieHTTPOnly:    cfg.ckHTTPOnly,
+		CookieSameSite:    cfg.ckSameSite,
+		CookieDomain:      cfg.ckDomain,
+		CookiePath:        cfg.ckPath,
+		TrustedOrigins:    cfg.trustedCfg,
 		KeyGenerator: func() string {
 			w.nTok++
 			t := w.tokName(w.nTok)
@@ -739,6 +754,7 @@ func genCfg(r *gen.Rand, backends []string) *hcfg {
 	if r.Chance(1, 4) {
 		cfg.cookieName = r.Ident(3, 8)
 	}
+	genCookieOpts(r, cfg)
 	if !cfg.keyLookup && r.Chance(3, 4) {
 		cfg.decoy = gen.Pick(r, decoysFor(cfg.extractor, cfg.cookieName))
 	}
@@ -751,6 +767,19 @@ func genCfg(r *gen.Rand, backends []string) *hcfg {
 // only counted, not demanded to pass: rejecting it is over-strict, not a breach of the statement.
 func hostSpellsDefaultPort(host, scheme string) bool {
 	return strings.HasSuffix(host, ":"+strconv.Itoa(defPort(scheme)))
+}
+
+// genCookieOpts draws the CSRF cookie's attributes (about half of the cases keep the defaults).
+func genCookieOpts(r *gen.Rand, cfg *hcfg) {
+	if r.Bool() {
+		return
+	}
+	cfg.ckSessionOnly = r.Chance(1, 2)
+	cfg.ckSecure = r.Chance(1, 3)
+	cfg.ckHTTPOnly = r.Chance(1, 3)
+	cfg.ckSameSite = gen.Pick(r, []string{"", "Lax", "Strict", "None"})
+	cfg.ckDomain = gen.Pick(r, []string{"", "", "example.com"})
+	cfg.ckPath = gen.Pick(r, []string{"", "", "/", "/app"})
 }
 
 // decoysFor lists KeyLookup strings that name a source other than the explicit extractor's.
